@@ -1,8 +1,10 @@
 package props
 
 import (
+	"encoding/json"
 	"errors"
 	"fmt"
+	"github.com/DataDog/datadog-traceroute/result"
 	"math/rand/v2"
 	"strings"
 
@@ -292,13 +294,13 @@ func genProviders(rng *rand.Rand, sc *sim.Scenario) string {
 	case 1: // some fail permanently, a later one succeeds
 		k := between(rng, 1, 4)
 		for p := 0; p < k; p++ {
-			sc.HTTP = append(sc.HTTP, sim.HTTPPlan{Provider: p, Script: []string{pick(rng, "status:404:not found", "status:403:no", "status:200:not an address", "status:200:", "status:429:slow down")}})
+			sc.HTTP = append(sc.HTTP, sim.HTTPPlan{Provider: p, Script: []string{pick(rng, fmt.Sprintf("status:%d:not found", clientStatus(rng)), fmt.Sprintf("status:%d:203.0.113.251", clientStatus(rng)), "status:200:not an address", "status:200:", "status:429:slow down")}})
 		}
 		sc.HTTP = append(sc.HTTP, sim.HTTPPlan{Provider: k, Script: []string{"status:200:  " + ip + "  \n"}})
 		return ip
 	default: // every provider fails permanently
 		for p := 0; p < 5; p++ {
-			sc.HTTP = append(sc.HTTP, sim.HTTPPlan{Provider: p, Script: []string{pick(rng, "status:404:x", "status:400:x", "status:200:garbage")}})
+			sc.HTTP = append(sc.HTTP, sim.HTTPPlan{Provider: p, Script: []string{pick(rng, fmt.Sprintf("status:%d:x", clientStatus(rng)), "status:400:x", "status:200:garbage")}})
 		}
 		return ""
 	}
@@ -333,6 +335,10 @@ func (c15) Gen(rng *rand.Rand, tier string, i int) *sim.Scenario {
 		o.queriesMax, o.e2eMax, o.bigE2E = 6, 10, 0.04
 	}
 	sc := genRequestScenario("C15", rng, o)
+	if chance(rng, 0.25) {
+		// the same request through the HTTP API: the counts (also explicit zeros) come from the query string
+		toHandler(rng, sc, &o)
+	}
 	c := &sc.Calls[0]
 	if c.PublicIP {
 		sc.Note = "publicip=" + genProviders(rng, sc)
@@ -391,7 +397,28 @@ func (c15) Check(out *sim.Outcome, ri *RunInfo) []Violation {
 		}
 		return vs
 	}
-	ri.Shape = shapeOf(out.Sc) + fmt.Sprint(out.Sc.Faults, c.Queries, c.E2E, c.PublicIP)
+	ri.Shape = shapeOf(out.Sc) + fmt.Sprint(out.Sc.Faults, c.Queries, c.E2E, c.PublicIP, c.Entry)
+	// through the HTTP handler the outcome is a status plus either the JSON document or the error text
+	viaHTTP := c.Entry == "http_handler"
+	results, callErr := cs.Results, cs.Err
+	exposed := func(f sim.FiredFault) bool { return exposes(callErr, f) }
+	if viaHTTP {
+		ri.probe("via-http-handler")
+		proto += "/http"
+		if cs.HTTPStatus == 200 {
+			var r result.Results
+			if err := json.Unmarshal(cs.HTTPBody, &r); err != nil {
+				vs = append(vs, Violation{Rule: "C15.count", Detail: "HTTP 200 whose body is not the result document: " + err.Error(), Facts: facts("protocol", proto, "what", "document")})
+				return vs
+			}
+			results = &r
+		} else {
+			callErr = fmt.Errorf("HTTP %d: %s", cs.HTTPStatus, cs.HTTPBody)
+		}
+		exposed = func(f sim.FiredFault) bool {
+			return strings.Contains(string(cs.HTTPBody), (&sim.SentinelError{Actor: f.Actor, Op: f.Op, K: f.K}).Error())
+		}
+	}
 	if len(out.W.Eps)+len(out.W.FailedNew) >= 2 {
 		ri.NonTrivial = true
 	}
@@ -405,18 +432,18 @@ func (c15) Check(out *sim.Outcome, ri *RunInfo) []Violation {
 		ri.probe("publicip-requested")
 	}
 	if len(fatal) == 0 {
-		if cs.Err != nil {
-			vs = append(vs, Violation{Rule: "C15.publicip-fatal", Detail: fmt.Sprintf("no run or probe failed, yet the request failed: %v", cs.Err), Facts: facts("protocol", proto)})
+		if callErr != nil {
+			vs = append(vs, Violation{Rule: "C15.publicip-fatal", Detail: fmt.Sprintf("no run or probe failed, yet the request failed: %v", callErr), Facts: facts("protocol", proto)})
 			return vs
 		}
-		if cs.Results == nil {
+		if results == nil {
 			return vs
 		}
 		ri.probe("all-succeeded")
-		if n := len(cs.Results.Traceroute.Runs); n != c.Queries {
+		if n := len(results.Traceroute.Runs); n != c.Queries {
 			vs = append(vs, Violation{Rule: "C15.count", Detail: fmt.Sprintf("%d runs in the result, %d requested", n, c.Queries), Facts: facts("protocol", proto, "what", "runs")})
 		}
-		if n := len(cs.Results.E2eProbe.RTTs); n != c.E2E {
+		if n := len(results.E2eProbe.RTTs); n != c.E2E {
 			vs = append(vs, Violation{Rule: "C15.count", Detail: fmt.Sprintf("%d RTT samples in the result, %d requested", n, c.E2E), Facts: facts("protocol", proto, "what", "rtts")})
 		}
 		// every run equals the reference of exactly one run-role endpoint
@@ -433,31 +460,32 @@ func (c15) Check(out *sim.Outcome, ri *RunInfo) []Violation {
 				matched++
 			}
 		}
-		if conclusive && matched != len(cs.Results.Traceroute.Runs) && len(cs.Results.Traceroute.Runs) == c.Queries {
+		// (the JSON document does not carry the destination flag: the content comparison is for the library entry)
+		if conclusive && !viaHTTP && matched != len(results.Traceroute.Runs) && len(results.Traceroute.Runs) == c.Queries {
 			vs = append(vs, Violation{Rule: "C15.count", Detail: fmt.Sprintf("only %d of the %d returned runs equal the reference path of a distinct endpoint (lost or duplicated run)", matched, c.Queries), Facts: facts("protocol", proto, "what", "content")})
 		}
 		want := ""
 		if strings.HasPrefix(out.Sc.Note, "publicip=") {
 			want = strings.TrimPrefix(out.Sc.Note, "publicip=")
 		}
-		if c.PublicIP && cs.Results.Source.PublicIP != want {
-			vs = append(vs, Violation{Rule: "C15.publicip-fatal", Detail: fmt.Sprintf("public IP %q reported, providers were scripted to yield %q", cs.Results.Source.PublicIP, want), Facts: facts("protocol", proto)})
+		if c.PublicIP && results.Source.PublicIP != want {
+			vs = append(vs, Violation{Rule: "C15.publicip-fatal", Detail: fmt.Sprintf("public IP %q reported, providers were scripted to yield %q", results.Source.PublicIP, want), Facts: facts("protocol", proto)})
 		}
 		return vs
 	}
 	ri.probe(fmt.Sprintf("failed-endpoints=%d", min(len(fatal), 4)))
-	if cs.Results != nil {
-		vs = append(vs, Violation{Rule: "C15.partial", Detail: fmt.Sprintf("%d endpoints failed (%v) but the request returned a result with %d runs and %d samples", len(fatal), fatal, len(cs.Results.Traceroute.Runs), len(cs.Results.E2eProbe.RTTs)), Facts: facts("protocol", proto)})
+	if results != nil {
+		vs = append(vs, Violation{Rule: "C15.partial", Detail: fmt.Sprintf("%d endpoints failed (%v) but the request returned a result with %d runs and %d samples", len(fatal), fatal, len(results.Traceroute.Runs), len(results.E2eProbe.RTTs)), Facts: facts("protocol", proto)})
 	}
-	if cs.Err == nil {
-		if cs.Results == nil {
+	if callErr == nil {
+		if results == nil {
 			vs = append(vs, Violation{Rule: "C15.cause-lost", Detail: "endpoints failed but the request returned (nil, nil)", Facts: facts("protocol", proto)})
 		}
 		return vs
 	}
 	for _, f := range fatal {
-		if !exposes(cs.Err, f) {
-			vs = append(vs, Violation{Rule: "C15.cause-lost", Detail: fmt.Sprintf("failure of %s (%s #%d) is not exposed by the returned error: %v", f.Actor, f.Op, f.K, cs.Err), Facts: facts("protocol", proto)})
+		if !exposed(f) {
+			vs = append(vs, Violation{Rule: "C15.cause-lost", Detail: fmt.Sprintf("failure of %s (%s #%d) is not exposed by the returned error: %v", f.Actor, f.Op, f.K, callErr), Facts: facts("protocol", proto)})
 			break
 		}
 	}
